@@ -23,7 +23,7 @@ LinkToks(links, nextOpd) ==
   ELSE IF Head(links) <= 25 THEN <<[t |-> "op", op |-> BinList[Head(links)]], Atom(Operand(nextOpd))>> \o LinkToks(Tail(links), nextOpd + 1)
   ELSE <<[t |-> "test", neg |-> (Head(links) = 27), name |-> IF Head(links) = 26 THEN "odd" ELSE "even"]>> \o LinkToks(Tail(links), nextOpd)
 (* unary variants: 0 none, 1 "-" on the first operand, 2 "not" on the first, 3 "not" on the second operand, 4 "-" on the last operand,
-   5 "not (a)" and 6 "-(a)" on the first operand *)
+   5 "not (a)" and 6 "-(a)" on the first operand, 7 "not not", 8 "- -", 9 "not -" before the first operand *)
 RECURSIVE NthAtom(_, _, _)
 NthAtom(toks, n, q) == IF q > Len(toks) THEN 0
                        ELSE IF toks[q].t = "atom" THEN (IF n = 1 THEN q ELSE NthAtom(toks, n - 1, q + 1)) ELSE NthAtom(toks, n, q + 1)
@@ -36,7 +36,9 @@ WithUnary(toks, u) ==
     [] u = 3 -> IF NumAtoms(toks) >= 2 THEN InsertTok(toks, NthAtom(toks, 2, 1), [t |-> "un", op |-> "not"]) ELSE toks
     [] u = 4 -> IF NumAtoms(toks) >= 2 THEN InsertTok(toks, NthAtom(toks, NumAtoms(toks), 1), [t |-> "un", op |-> "-"]) ELSE toks
     (* 5, 6: the first operand is written in parentheses after "not" / "-" (partial parenthesisation) *)
-    [] OTHER -> <<[t |-> "un", op |-> (IF u = 5 THEN "not" ELSE "-")], [t |-> "lp"], toks[1], [t |-> "rp"]>> \o Tail(toks)
+    [] u \in {5, 6} -> <<[t |-> "un", op |-> (IF u = 5 THEN "not" ELSE "-")], [t |-> "lp"], toks[1], [t |-> "rp"]>> \o Tail(toks)
+    (* 7..9: stacked prefix operators: not not a, - - a, not - a *)
+    [] OTHER -> <<[t |-> "un", op |-> (IF u = 8 THEN "-" ELSE "not")], [t |-> "un", op |-> (IF u = 7 THEN "not" ELSE "-")]>> \o toks
 ChainToks(links, u) == WithUnary(<<Atom(Operand(1))>> \o LinkToks(links, 2), u)
 (* conditional variants: 0 none, 1 trailing (chain ? 8 : 9), 2 inner (1 ? chain : 9), 3/4 chained in the else position *)
 WithTern(tree, tv) ==
@@ -50,7 +52,7 @@ WithTern(tree, tv) ==
 (* index -> configuration *)
 RECURSIVE PowN(_, _)
 PowN(b, n) == IF n = 0 THEN 1 ELSE b * PowN(b, n - 1)
-Variants == 35
+Variants == 50
 CountLen(n) == PowN(NLink, n) * Variants
 RECURSIVE BaseLen(_)
 BaseLen(n) == IF n = 1 THEN 0 ELSE BaseLen(n - 1) + CountLen(n - 1)
@@ -60,7 +62,7 @@ Cfg(j) == LET n == LenOf(j)
               r == j - BaseLen(n)
               vr == r % Variants
               code == r \div Variants
-          IN [links |-> [q \in 1..n |-> ((code \div PowN(NLink, q - 1)) % NLink) + 1], u |-> vr % 7, tv |-> vr \div 7]
+          IN [links |-> [q \in 1..n |-> ((code \div PowN(NLink, q - 1)) % NLink) + 1], u |-> vr % 10, tv |-> vr \div 10]
 
 Small == IF MaxLen >= 3 THEN BaseLen(3) ELSE Total
 End3 == IF MaxLen >= 4 THEN BaseLen(4) ELSE Total
